@@ -97,9 +97,10 @@ def regenerate_gen():
     return rc == 0, out
 
 
-def build_coq(jobs=16, timeout=3000):
-    """make the whole development under a lock; keep going so that unrelated failures do not
-    mask each other; returns CoqBuild."""
+def build_coq(jobs=16, timeout=3000, only=None):
+    """make the development (or only the .vo files of `only`, a list of .v paths: the cone of
+    one property) under a lock; keep going so that unrelated failures do not mask each other;
+    returns CoqBuild."""
     os.makedirs(BUILD, exist_ok=True)
     res = CoqBuild()
     t0 = time.time()
@@ -115,7 +116,8 @@ def build_coq(jobs=16, timeout=3000):
         cp = os.path.join(COQ, "_CoqProject")
         if not os.path.exists(mk) or os.path.getmtime(mk) < os.path.getmtime(cp):
             sh(["coq_makefile", "-f", "_CoqProject", "-o", "Makefile"], cwd=COQ, check=True)
-        rc, out = sh(["timeout", str(timeout), "make", "-k", "-j%d" % jobs], cwd=COQ, timeout=timeout + 60)
+        targets = [f[:-2] + ".vo" for f in only] if only else []
+        rc, out = sh(["timeout", str(timeout), "make", "-k", "-j%d" % jobs] + targets, cwd=COQ, timeout=timeout + 60)
         res.log = out
         if rc != 0:
             res.ok = False
@@ -127,7 +129,7 @@ def build_coq(jobs=16, timeout=3000):
                 if f not in res.failed_files:
                     res.failed_files.append(f)
             # anything whose .vo is missing or stale
-            for f in coq_project_files():
+            for f in (only or coq_project_files()):
                 vo = os.path.join(COQ, f[:-2] + ".vo")
                 src = os.path.join(COQ, f)
                 if not os.path.exists(vo) or os.path.getmtime(vo) < os.path.getmtime(src):
